@@ -398,6 +398,10 @@ def r4_raw_mutators(ctx):
         for f, b in facts.call_sites(callee, crate='chess', kinds=('lib', 'bin')):
             n += 1
             ok = f.name.startswith(allowed_prefixes) or f.name.startswith('chess::board::Board::starting_position') or (f.closure_of or f.name) in inside
+            # the occurrence table is not touched by apply / undo; the game registering the positions it actually reaches on its own board
+            # (Game::from_board, Game::save_move) is the intended user of the counter and changes nothing a move's undo has to restore
+            if not ok and m in ('count_current_position', 'uncount_current_position') and (f.closure_of or f.name).startswith('chess::game::game::Game::'):
+                ok = True
             ctx.ob(rule, f.name, 'calls Board::%s' % m, ok, found=f.blocks[b]['term']['span'],
                    expected='raw placement/stack mutators are used only by the four move kinds and by Board itself',
                    why='a raw mutation outside apply/undo has no inverse registered and breaks undo/neutrality',
